@@ -9,7 +9,8 @@
 // seeded order, repeatedly and concurrently, and every document is compared with the one of a fresh
 // process. Files: spec.go (type grammar, features, tag classes, tree edits), gen.go (stage-1 corpus,
 // stage-2 generator), populate.go (values inside / outside the tag zones, names oracle), eval.go
-// (pipeline, fresh-process regeneration), history.go (stage 3), child.go / bind.go (child roles),
+// (pipeline, fresh-process regeneration), collide.go (stage 2d: several fields at different embedding depths
+// claiming one JSON name), history.go (stage 3), child.go / bind.go (child roles),
 // oracle.go + oracle.py (reference oracle), corpus/ (compiled types).
 package main
 
@@ -436,6 +437,10 @@ func main() {
 		}
 	}
 
+	// ------------------------------------------------------------------ stage 2d: fields claiming one JSON name (collide.go)
+	runCollisions(r, ev, sampled)
+	phase("collisions-evaluated")
+
 	// ------------------------------------------------------------------ batch verdicts a fresh process did not reproduce
 	reportBatch := func() {
 		ev.histMu.Lock()
@@ -588,7 +593,7 @@ func main() {
 		"concurrently from 4 (8) goroutines; every document is compared, as JSON with $defs names up to renaming, with the document of a fresh process that generated only that (type, style); a document that "+
 		"differs is judged by the ordinary oracle and the differing keywords are traced to the tags of the types generated before (quick 2 sessions / thorough 10). Binding: 22 compiled types x value classes "+
 		"through a real Streamable server and library client; tools/list: the same types x 4 option sets (input and output schema) and 4 builder tools. A case is distinct by (stage, style, feature) in stage 1, by "+
-		"(style, number of features, struct depth) or (style, pair) in stage 2, by (mode, style, occurrence of the (type, style) in the run, whether a type sharing a kind - tagged or not - came before) in stage 3, by "+
+		"(style, number of features, struct depth) or (style, pair) in stage 2, by (style, arrangement class) for collisions, by (mode, style, occurrence of the (type, style) in the run, whether a type sharing a kind - tagged or not - came before) in stage 3, by "+
 		"(type, value class) for binding, by (tool kind, style, input/output, type) for tools/list, and is non-trivial when a schema was generated and judged.",
 		[]string{
 			"the reference for meta-schema validity, $ref resolution and instance acceptance is python jsonschema 4.x (Draft 2020-12, format not asserted, same-document references only)",
@@ -601,6 +606,7 @@ func main() {
 			"history: concurrent generation from several goroutines is part of 'every program'; a crash of that child is a violation, a child that does not finish is inconclusive",
 			"typed binding is judged on the JSON encoding of the received value (reflect.DeepEqual differences that are invisible in JSON are only counted)",
 			"tools/list fidelity is judged on Tool.RawInputSchema / RawOutputSchema; the re-parsed openapi3 object is only counted",
-			"random compositions and history orders are sampled, not enumerated",
+			"collisions: which claimant of a JSON name wins, or that the name is dropped, is never computed by the harness - names and values come from json.Marshal of the populated value; the arrangement class in the signature only describes what was built (depths, tagged / untagged, options)",
+			"random compositions, random collision arrangements and history orders are sampled, not enumerated",
 		})
 }
